@@ -298,11 +298,7 @@ def run(ctx: Ctx, rs: RuleSet, tier: str):
   for c in ctx.calls(ff):
     if p.resolve(c.func, ff) == MD:
       at = kwarg(c, 'argument_tags')
-  comp = None
-  for n in walk_function(ff.node):
-    if isinstance(n, ast.Assign) and isinstance(at, ast.Name) and any(
-        isinstance(t, ast.Name) and t.id == at.id for t in n.targets):
-      comp = n.value
+  comp = roles.deref(ff, at) if at is not None else None
   ok = (isinstance(comp, ast.DictComp) and
         '__argument_tags__' in unparse(comp.generators[0].iter) and
         unparse(comp.key) == unparse(comp.generators[0].target.elts[0]))
